@@ -1,0 +1,35 @@
+//go:build verif
+
+package l1infotreesync
+
+import (
+	"context"
+
+	"github.com/agglayer/aggkit/sync"
+)
+
+// NewVerifC14L1InfoTreeSync builds the real L1InfoTreeSync facade around a real processor (real SQLite store on
+// dbPath) without driver or downloader: blocks are fed by VerifC14ProcessBlock.
+// These are plain functions (not methods) so that the method set of *L1InfoTreeSync is exactly the product's.
+func NewVerifC14L1InfoTreeSync(dbPath string) (*L1InfoTreeSync, error) {
+	p, err := newProcessor(dbPath)
+	if err != nil {
+		return nil, err
+	}
+	return &L1InfoTreeSync{processor: p}, nil
+}
+
+// VerifC14ProcessBlock hands one block (Events are l1infotreesync.Event values) to the real processor.
+func VerifC14ProcessBlock(ctx context.Context, s *L1InfoTreeSync, b sync.Block) error {
+	return s.processor.ProcessBlock(ctx, b)
+}
+
+// VerifC14Reorg calls the real processor's Reorg.
+func VerifC14Reorg(ctx context.Context, s *L1InfoTreeSync, firstReorgedBlock uint64) error {
+	return s.processor.Reorg(ctx, firstReorgedBlock)
+}
+
+// VerifC14Close closes the store.
+func VerifC14Close(s *L1InfoTreeSync) error {
+	return s.processor.db.Close()
+}
